@@ -201,7 +201,7 @@ def run_check(cid, tier, seed, only=None, bound_override=None, budget_s=None, qu
         sys.stdout.write("%s %s: executions=%d transitions=%d states=%d distinct_logs=%d outcomes=%d "
                          "ends=%s violations=%d known=%d wall=%.1fs%s\n" % (
                              cid.upper(), tier, total.executions, total.transitions, len(total.fps),
-                             len(total.loghashes), len(total.outcomes), total.ends, len(new), len(seen_known), wall,
+                             len(total.loghashes) + len(total.seqhashes), len(total.outcomes), total.ends, len(new), len(seen_known), wall,
                              " (CAPPED by time budget: not exhaustive)" if capped else ""))
     return 1 if new else 0
 
@@ -231,11 +231,14 @@ def write_evidence(cid, tier, seed, st, table, wall, capped, new, seen_known, mo
         evaluations=st.executions + st.cases,
         executions=st.executions,
         input_cases_inside_executions=st.cases,
-        distinct_nontrivial=len(st.loghashes),
+        distinct_nontrivial=len(st.loghashes) + len(st.seqhashes),
+        distinct_concurrent_logs=len(st.loghashes),
+        distinct_sequential_cases=len(st.seqhashes),
         rule=("stateless DFS by re-execution of the real code under a controlled scheduler: every choice "
               "list within the deviation bound of each (harness, parameter) cell is executed once; "
               "distinct_nontrivial = number of distinct client-visible event logs among executions in "
-              "which at least two logical threads logged an event; states = distinct fingerprints "
+              "which at least two logical threads logged an event, plus - for single-threaded input/history "
+              "enumeration harnesses - the number of distinct (event log, observation) pairs; states = distinct fingerprints "
               "(thread locations + primitive states) at choice points (reporting only, never pruning)"),
         exhaustive=not capped,
         outcomes=len(st.outcomes),
